@@ -125,6 +125,8 @@ def synthetic_roadm_variety(rng, name='vf_impair_full'):
     def items(kind):
         edges = [184e12, 190.5e12, 193.0e12, 195.0e12, 200e12]
         out = []
+        # (an OSNR figure on some ranges of a profile only is a listed finding of C13: per profile, all ranges or none)
+        with_nf, without_osnr = rng.random() < 0.5, rng.random() < 0.5
         for lo, hi in zip(edges[:-1], edges[1:]):
             it = {'frequency-range': {'lower-frequency': lo, 'upper-frequency': hi},
                   'roadm-pmd': pick(rng, [0, 1e-12, 3e-12]), 'roadm-cd': pick(rng, [0, 0, 5e-12]),
@@ -132,6 +134,14 @@ def synthetic_roadm_variety(rng, name='vf_impair_full'):
                   'roadm-maxloss': pick(rng, [0, 3.0, 6.5, 11.5])}
             if kind != 'express':
                 it['roadm-osnr'] = pick(rng, [41, 38, 35])
+            # fields of the data model that the propagation does not use (amplified blocks): a noise figure with or
+            # without an OSNR figure, maximum power, typical / minimum loss
+            if with_nf:
+                it['roadm-noise-figure'] = pick(rng, [5.0, 8.0, 15.0])
+                if without_osnr:
+                    it.pop('roadm-osnr', None)
+            if rng.random() < 0.3:
+                it['roadm-pmax'] = pick(rng, [2.5, 0, 10])
             out.append(it)
         return out
     return {'type_variety': name, 'target_pch_out_db': pick(rng, [-20, -18, -22]), 'add_drop_osnr': 38, 'pmd': 0,
